@@ -41,7 +41,11 @@ func main() {
 	case "C06":
 		runC06(cfg, rep)
 	case "C14":
-		runC14(cfg, rep)
+		if cfg.Mode == "concurrent" {
+			runC14Concurrent(cfg, rep)
+		} else {
+			runC14(cfg, rep)
+		}
 	default:
 		fmt.Fprintln(os.Stderr, "enginemon: unknown property", cfg.Prop)
 		os.Exit(3)
@@ -74,6 +78,8 @@ func runProp(cfg *vc.Config, rep *vc.Report, gen func(*vc.Rand) *Scenario, oracl
 	})
 }
 
+var stalls int
+
 // account: counters, evidence, violations of one scenario run.
 func account(rep *vc.Report, cfg *vc.Config, i, k int, sc *Scenario, run *ScenarioRun, fs []Finding) {
 	rep.Eval()
@@ -82,6 +88,13 @@ func account(rep *vc.Report, cfg *vc.Config, i, k int, sc *Scenario, run *Scenar
 	if run.Stalled != "" {
 		rep.Inconc(fmt.Sprintf("scenario %d schedule %d: %s", i, k, run.Stalled))
 		rep.Inc("stalled")
+		stalls++
+		if stalls >= 3 {
+			// requests that never come back: every further scenario would cost another watchdog period
+			rep.Inconc("3 scenarios stalled (requests never answered / no task can run): shard abandoned")
+			rep.Write(true)
+			os.Exit(0)
+		}
 		return
 	}
 	if run.InitErr != "" {
